@@ -254,6 +254,12 @@ def classify_default(ln):
     return m.group(1) if m else ""
 
 
+def classify_backend(ln):
+    k = re.search(r"kind=(\S+)", ln)
+    b = re.search(r"backend=(\S+)", ln)
+    return (k.group(1) if k else "") + ("-" + b.group(1) if b else "")
+
+
 spec("C01",
      cmd="c01", count=dict(quick=600, thorough=20000),
      args=dict(quick=["1,2,3,4,6,255"], thorough=["1,2,3,4,5,6,8,12,16,32,64,255"]),
@@ -296,6 +302,16 @@ spec("C10",
      assumptions=["the history check is an oracle run on the implementation (differential against fresh objects); the theorems cover reset = new and stale-content independence of the modelled evaluators"],
      )
 
+spec("C14",
+     cmd="c14", count=dict(quick=1500, thorough=60000),
+     vo_targets=["props/C14.vo"],
+     level="proof",
+     rule="single-root expressions (up to 40 operations, choice-heavy half of the time) over a random subset of X, Y, Z and 0..24 free variables created in one random order, folded into the root in another and supplied in a third; supplied table exact / with 1..4 extra variables / with one variable missing; no transform / affine / projective 4x4 matrices (incl. w = 0); VM point evaluation through ShapeTracingEval::eval_raw: the tape's variable order, the transformed position and the result (or the missing-variable error) must equal the Coq model (flatten + allocate + slot filling in the implementation's own map iteration order + tape run) bit for bit; oracle: direct operation-by-operation evaluation with an explicit binding, JIT point, float-slice with scalar variables and with per-sample variable arrays, gradient value lane, degenerate-box interval (VM and JIT), and the shape simplified on a box around the point (same value, no variable renumbered); distinct_nontrivial = distinct case lines",
+     classify=classify_backend,
+     assumptions=["the sign of a zero result is not compared across evaluator kinds (min/max zero sign is code-generation dependent, see C02)",
+                  "projective transforms with w = 0 at the point are compared for the point evaluator only (no transformed position exists)"],
+     )
+
 spec("C15",
      cmd="c15", count=dict(quick=500, thorough=10000),
      vo_targets=["props/C15.vo"],
@@ -305,12 +321,6 @@ spec("C15",
      classify=classify_default,
      assumptions=["the Rust documentation-only interpreter (oracle) and the Coq decoder are both written from the module docs: opcode table from iter_ops / regenerated enum order"],
      )
-
-
-def classify_backend(ln):
-    k = re.search(r"kind=(\S+)", ln)
-    b = re.search(r"backend=(\S+)", ln)
-    return (k.group(1) if k else "") + ("-" + b.group(1) if b else "")
 
 
 spec("C11",
